@@ -135,14 +135,19 @@ pub fn run_table(case: &ApiCase) -> Vec<(String, String, String, R)> {
     let existing = |i: usize| -> String { ng.names[i % n.max(1)].clone() };
     let have_nodes = n > 0;
     // names for functions with an error channel
-    let (a, b): (String, String) = if case.absent || !have_nodes { (ABSENT.to_string(), if have_nodes { existing(pick(n)) } else { ABSENT.to_string() }) } else { (existing(pick(n)), existing(pick(n))) };
+    // the absent name is short, or (half of the cases) some hundred characters of mixed width
+    let absent_name: String = match case.sel % 4 {
+        0 | 1 => ABSENT.to_string(),
+        k => crate::model::absent_long(k as usize),
+    };
+    let (a, b): (String, String) = if case.absent || !have_nodes { (absent_name.clone(), if have_nodes { existing(pick(n)) } else { ABSENT.to_string() }) } else { (existing(pick(n)), existing(pick(n))) };
     let name_ok = !case.absent && have_nodes;
     // names that exist, for functions without an error channel
     let (x, y) = if have_nodes { (existing(pick(n)), existing(pick(n))) } else { (String::new(), String::new()) };
     let subset_existing: Vec<String> = (0..n).filter(|_| pick(2) == 1).map(|i| ng.names[i].clone()).collect();
     let mut subset_chan = subset_existing.clone();
     if case.absent {
-        subset_chan.push(ABSENT.to_string());
+        subset_chan.push(absent_name.clone());
     }
     let subset_ok = !case.absent;
     let k = 1 + pick(n + 2);
@@ -388,7 +393,7 @@ impl Prop for C20 {
         "C20"
     }
     fn rule(&self) -> String {
-        "a table of about 100 calls covering every public function of the crate (queries, degrees, density, matrix, convert, subgraph, ensure, Dijkstra x4, centralities x4, cluster x6, partitions, Louvain x2, components x6, generators, GraphML) is executed on every case: all 8 kinds x (exhaustive block: every graph on <= 3 nodes with at most one edge per pair, plus explicit parallel-edge and self-loop shapes) and random graphs with n in 0..=7 (sparse, so isolated / degree-one nodes and disconnected graphs dominate) plus, one case in 150, a medium-sized graph (21..=255 nodes, mostly one of ten structured shapes incl. layered graphs with more than 2^64 equally short paths, grids, cliques, circulants; the functions that return every shortest path are skipped where their output would be exponential), arguments drawn from the graph's own names by a selector (one case in 64 additionally calls fast_gnp_random_graph with a node count from {300, ..., 32768, 46341, 46342, 65536, 100000} and p = 1e-7); with absent = true the functions that have an error channel are given a name that is not in the graph. Each call runs under catch_unwind with the Louvain step budget and the watchdog, in the checked profile (overflow checks + debug assertions) and, through a worker process, in the release profile. Oracle: no panic and no hang in either profile; absent name => Err/None; unsupported kind of graph (the WrongMethod clauses of C02, C09, C10, C11, C15, eigenvector on multi-edge graphs) => Err; outcome kinds equal and values equal (floats within 1e-9) between the two profiles. Non-trivial = the graph has a degenerate feature (no node, no edge, an isolated or degree-one node, a self-loop, a parallel edge or >= 2 components); distinct = distinct serialised case.".into()
+        "a table of about 100 calls covering every public function of the crate (queries, degrees, density, matrix, convert, subgraph, ensure, Dijkstra x4, centralities x4, cluster x6, partitions, Louvain x2, components x6, generators, GraphML) is executed on every case: all 8 kinds x (exhaustive block: every graph on <= 3 nodes with at most one edge per pair, plus explicit parallel-edge and self-loop shapes) and random graphs with n in 0..=7 (sparse, so isolated / degree-one nodes and disconnected graphs dominate) plus, one case in 150, a medium-sized graph (21..=255 nodes, mostly one of ten structured shapes incl. layered graphs with more than 2^64 equally short paths, grids, cliques, circulants; the functions that return every shortest path are skipped where their output would be exponential), arguments drawn from the graph's own names by a selector (one case in 64 additionally calls fast_gnp_random_graph with a node count from {300, ..., 32768, 46341, 46342, 65536, 100000} and p = 1e-7); with absent = true the functions that have an error channel are given a name that is not in the graph (\"zz\", or 300 bytes of characters of mixed width). Each call runs under catch_unwind with the Louvain step budget and the watchdog, in the checked profile (overflow checks + debug assertions) and, through a worker process, in the release profile. Oracle: no panic and no hang in either profile; absent name => Err/None; unsupported kind of graph (the WrongMethod clauses of C02, C09, C10, C11, C15, eigenvector on multi-edge graphs) => Err; outcome kinds equal and values equal (floats within 1e-9) between the two profiles. Non-trivial = the graph has a degenerate feature (no node, no edge, an isolated or degree-one node, a self-loop, a parallel edge or >= 2 components); distinct = distinct serialised case.".into()
     }
     fn assumptions(&self) -> Vec<String> {
         vec![
@@ -444,7 +449,7 @@ impl Prop for C20 {
         // graphs with astronomically many equally short paths, circulants): valid inputs too
         // (the dense shapes are capped at 40 nodes: the table holds several cubic-time functions)
         let medium = graph_strategy(&ALL_KINDS, 21, 255, few, &[0, 1], 9).prop_map(|mut g| {
-            if matches!(g.shape, 4 | 5) {
+            if matches!(g.shape, 4 | 5 | 12) {
                 g.n = g.n.min(40);
             }
             g
